@@ -1,0 +1,16 @@
+//go:build verif
+
+package net
+
+import (
+	"context"
+
+	"github.com/ipfs/boxo/blockservice"
+
+	coreblock "github.com/sourcenetwork/defradb/internal/core/block"
+)
+
+// VerifSyncDAG exposes syncDAG.
+func VerifSyncDAG(ctx context.Context, bs blockservice.BlockService, block *coreblock.Block) error {
+	return syncDAG(ctx, bs, block)
+}
